@@ -208,7 +208,32 @@ class _Palette:
         return c
 
 
+def gen_long_history(rng, ctx):
+    """Hundreds of cheap calls from a small palette: state that only
+    degrades with volume (a bounded cache that evicts, a counter, a list
+    that grows) needs more than 25 operations to show."""
+    texts = [_tiny(rng) for _ in range(4)] + [_short(rng) for _ in range(2)]
+    optsets = [corpus.draw_opts(rng) for _ in range(4)]
+    ops_ = []
+    for _ in range(rng.randint(300, 500)):
+        r = rng.random()
+        api = rng.choice(['parse', 'split', 'format', 'format'])
+        op = {'op': 'call', 'api': api,
+              'inp': {'t': 'str', 'v': rng.choice(texts)},
+              'opts': dict(rng.choice(optsets)) if api == 'format' else None,
+              'enc': None}
+        if r < 0.01:
+            ops_.append({'op': rng.choice(['re_purge', 'gc', 'mut_newtype',
+                                           'mut_tree'])})
+        elif r < 0.02:
+            ops_.append(_raising_call(rng))
+        ops_.append(op)
+    return {'ops': ops_, 'timeout': 300.0, 'long': True}
+
+
 def gen_history(rng, ctx):
+    if rng.random() < 0.01:
+        return gen_long_history(rng, ctx)
     pal = _Palette(rng)
     n = rng.randint(3, 25)
     ops_ = []
@@ -612,6 +637,8 @@ def run_history(spec, refs):
                 ses.stat('gen_throw_came_back_as_other_exception')
     st = dict(ses.stats)
     st['ops'] = len(spec['ops'])
+    if spec.get('long'):
+        st['long_histories'] = 1
     st['checked_ops'] = nchecked
     return {'status': 'violation' if viols else 'ok', 'viol': viols,
             'stats': st, 'sig': 'H:' + canon.digest(sigparts)[0],
@@ -915,7 +942,7 @@ PROBES = ['probe_descheduled_holding_lexer_lock',
           'interrupt_fired', 'interrupt_in_lexer_init',
           'interrupt_in_lazy_pipeline',
           'interrupt_in_indent_filter', 'interrupt_in_splitter',
-          'headroom_fired', 'instr_points']
+          'headroom_fired', 'instr_points', 'long_histories']
 
 COMPONENTS = {
     'real': ['all of sqlparse (lexer, splitter, grouping, filters, '
